@@ -13,7 +13,7 @@ ASSUMPTIONS = ["the per-variable DimArray operation is the oracle, as the proper
 
 FLOORS = {"op=take_scalar": (50, 50), "op=mean": (50, 50), "op=take_axis": (50, 50), "op=sort_axis": (50, 50), "op=reindex_axis": (50, 50),
           "op=interp_axis": (20, 20), "op=add_ds": (20, 20), "op=stack_ds": (20, 20), "op=concatenate_ds": (20, 20), "has-unaffected": (500, 500),
-          "has-0d": (300, 300), "var-dims-reordered": (300, 300), "by-position": (500, 500), "op=construct_misaligned": (20, 20)}
+          "has-0d": (300, 300), "var-dims-reordered": (300, 300), "by-position": (500, 500), "op=construct_misaligned": (20, 20), "op=add_ds_misaligned": (20, 20), "op=concatenate_ds_align": (10, 10)}
 
 LABELS = {"x": [4, 2, 6], "y": [2.0, 6.0], "z": ["k2", "k6"]}
 
@@ -91,7 +91,7 @@ def _same(a, b):
     return ""
 
 
-def _ops(i, ds, ds2):
+def _ops(i, ds, ds2, ds3=None):
     """returns (function on the dataset, function on one variable (k, v), keepattrs)"""
     o, d = i["op"], i["d"]
     byname = i["byname"]
@@ -136,6 +136,15 @@ def _ops(i, ds, ds2):
         return (lambda: 2 - ds), (lambda k, v: 2 - v)
     if o == "neg":
         return (lambda: -ds), (lambda k, v: -v)
+    if o in ("add_ds_misaligned", "sub_ds_misaligned"):
+        import operator
+        f = operator.add if o.startswith("add") else operator.sub
+        return (lambda: f(ds, ds3)), (lambda k, v: f(v, ds3[k]))
+    if o == "stack_ds_align":
+        return (lambda: A.da.stack_ds([ds, ds3], axis="k", keys=[0, 1], align=True)), (lambda k, v: A.da.stack([v, ds3[k]], axis="k", keys=[0, 1], align=True))
+    if o in ("concatenate_ds_align", "concatenate_ds_align_pos"):
+        axc = d if o == "concatenate_ds_align" else list(ds.dims).index(d)
+        return (lambda: A.da.concatenate_ds([ds, ds3], axis=axc, align=True)), (lambda k, v: A.da.concatenate([v, ds3[k]], axis=d, align=True))
     if o == "stack_ds":
         return (lambda: A.da.stack_ds([ds, ds2], axis="k", keys=[0, 1])), (lambda k, v: A.da.stack([v, ds2[k]], axis="k", keys=[0, 1]))
     if o == "concatenate_ds":
@@ -150,15 +159,22 @@ def replay(scn):
     o = i["op"]
     old = np.seterr(all="ignore")
     try:
-        if o == "concatenate_ds" and (not i["d"] or not all(i["d"] in v for v in i["vars"])):
+        if o.startswith("concatenate_ds") and (not i["d"] or not all(i["d"] in v for v in i["vars"])):
             return dict(violations=[], calls=0)
+        if o in ("stack_ds_align",) and len(set(tuple(sorted(v)) for v in i["vars"])) > 1:
+            return dict(violations=[], calls=0)      # align(strict=True) wants every dataset dimension in every variable
         if o == "construct_misaligned":
             return _replay_construct(scn)
         ds = _mk_ds(i["vars"])
         ds2 = _mk_ds(i["vars"], offset=50)
         before = {k: A.snapshot(ds[k]) for k in ds.keys()}
         bdims = tuple(ds.dims)
-        dsop, varop = _ops(i, ds, ds2)
+        ds3 = _mk_ds(i["vars"], offset=70)          # same variables, other labels: x shifted / overlapping, y permuted
+        if "x" in ds3.dims:
+            ds3.axes["x"][:] = [2, 6, 8]
+        if "y" in ds3.dims:
+            ds3.axes["y"][:] = [6.0, 2.0]
+        dsop, varop = _ops(i, ds, ds2, ds3)
         calls += 1
         what = None
         try:
